@@ -30,9 +30,14 @@ void d_string_insert(DString *d, size_t pos, const char *s) {
 	if (n == 0) return;
 	if (pos > d->currentStringLength) pos = d->currentStringLength;
 	CHECK(d->currentStringLength + n < BIG, "result stays inside the harness buffer");
-	for (size_t i = d->currentStringLength; i > pos; i--) d->str[i - 1 + n] = d->str[i - 1];
-	for (size_t i = 0; i < n; i++) d->str[pos + i] = s[i];
-	d->currentStringLength += n; d->str[d->currentStringLength] = 0;
+	/* an insert may have to grow the string, and growing may MOVE it: the ideal insert always hands back a fresh buffer and releases the old
+	   one, so any pointer into the old text that the replace loop keeps across the call is a use after free */
+	char *nb = malloc(BIG); ASSUME(nb != 0);
+	for (size_t i = 0; i < pos; i++) nb[i] = d->str[i];
+	for (size_t i = 0; i < n; i++) nb[pos + i] = s[i];
+	for (size_t i = pos; i < d->currentStringLength; i++) nb[i + n] = d->str[i];
+	d->currentStringLength += n; nb[d->currentStringLength] = 0;
+	free(d->str); d->str = nb;
 }
 
 static char m[BIG]; static size_t ml;
